@@ -194,6 +194,7 @@ class UnicastDnsSdClientProtocol(asyncio.Protocol):
         self.parser: ServiceParser = ServiceParser()
         self.semaphore: asyncio.Semaphore = asyncio.Semaphore(value=0)
         self.received_responses: int = 0
+        self._seen_responses: typing.Set[bytes] = set()
         self._task: typing.Optional[asyncio.Future] = None
 
     async def get_response(self) -> Response:
@@ -246,6 +247,14 @@ class UnicastDnsSdClientProtocol(asyncio.Protocol):
             Index=self.received_responses + 1,
             Total=len(self.queries),
         )
+
+        # A repeated (byte-identical) response, e.g. the answer to a re-sent query or a
+        # datagram duplicated by the network, must not count as the answer to another
+        # query: that would end the scan before all queries have been answered.
+        data = bytes(data)
+        if data in self._seen_responses:
+            return
+        self._seen_responses.add(data)
 
         self.parser.add_message(DnsMessage().unpack(data))
         self.received_responses += 1
